@@ -10,6 +10,16 @@ NOTE = ("Trusted: Coq 8.16.1 kernel + vm_compute; no axioms (Print Assumptions c
         "its ExtrOcamlBasic extraction vs the implementation built from the working tree); Rust harness, python generators.")
 
 CHECKS = {
+    "C08": dict(
+        category="proof",
+        text="Theorems for all texts, positions and change sequences (Props/C08.v) over the model of document.rs: position->index "
+             "conversion equals the LSP rule (UTF-16 columns, CR/LF/CRLF line ends, overshooting column = end of line, overshooting "
+             "line = end of text), always yields a character boundary, is monotone (ordered ranges never panic), applying changes "
+             "(ranged, batched, full-text) equals the client-side LSP text model along whole histories, and index->position->index "
+             "round-trips. The model is tied to the server by comparing, after every didChange of generated histories, the server's "
+             "text ($/verif/text) with the Coq model (extracted + coqc VM judge) and with an independent python client model.",
+        design_ref="DESIGN.md section 5, C08",
+        technique="Coq proof over a Gallina model of document.rs against an LSP text specification + correspondence through the running server"),
     "C18": dict(
         category="proof",
         text="Theorems for all message sequences (Props/C18.v): the phase machine transcribed from server.rs produces exactly the "
